@@ -222,6 +222,8 @@ pub fn h_unwrap_twin() {
 
 /// A probe object the callbacks try to unwrap / re-arm; unique, program-held.
 pub static mut PROBE: Option<Cc<u64>> = None;
+#[cfg(feature = "weak-ptrs")]
+pub static mut PROBE_WEAK: Option<Weak<u64>> = None;
 pub static mut NEST_BAD: u32 = 0;
 pub static mut NEST_DONE: u32 = 0;
 
@@ -241,6 +243,25 @@ pub fn nested_probe() {
                 Err(mut cc) => {
                     if (&*cc) as *const u64 as usize != addr || rust_cc::verif::snapshot(&cc) != snap {
                         NEST_BAD += 1;
+                    }
+                    #[cfg(feature = "weak-ptrs")]
+                    {
+                        // the refused try_unwrap must not have touched the side record: the Weak still upgrades
+                        if let Some(wk) = &*core::ptr::addr_of!(PROBE_WEAK) {
+                            if wk.strong_count() != 1 || wk.weak_count() != 1 {
+                                NEST_BAD += 1;
+                            }
+                            match wk.upgrade() {
+                                Some(up) => {
+                                    if !Cc::ptr_eq(&up, &cc) {
+                                        NEST_BAD += 1;
+                                    }
+                                    core::mem::forget(up); // callbacks must not drop Ccs; undo the count below
+                                    let _ = rust_cc::verif::sub_phantom_strong(&cc, 1);
+                                }
+                                None => NEST_BAD += 1,
+                            }
+                        }
                     }
                     #[cfg(feature = "finalization")]
                     {
@@ -270,6 +291,14 @@ fn nest_scenario(n: usize, full: bool) {
         let b0 = state::allocated_bytes().unwrap_or(0);
         PROBE = Some(Cc::new(77u64));
         w().extra_bytes = (state::allocated_bytes().unwrap_or(0) - b0) as u64;
+        #[cfg(feature = "weak-ptrs")]
+        {
+            PROBE_WEAK = (*core::ptr::addr_of!(PROBE)).as_ref().map(|c| c.downgrade());
+        }
+    }
+    // an earlier completed collection has raised the byte threshold above the allocated bytes (or not)
+    if any_below(2) == 1 {
+        collect_cycles();
     }
     // an extra program-held pointer to node 0 that a finalizer may release (it gets buffered by that)
     if any_below(2) == 1 {
@@ -357,6 +386,12 @@ fn nest_scenario(n: usize, full: bool) {
                 Err(_) => check(false, 344),
             }
             w().extra_bytes = 0;
+            #[cfg(feature = "weak-ptrs")]
+            {
+                if let Some(wk) = (*core::ptr::addr_of_mut!(PROBE_WEAK)).take() {
+                    check(wk.upgrade().is_none() && wk.strong_count() == 0, 345);
+                }
+            }
         }
     }
     cover(1);
